@@ -127,7 +127,12 @@ type c16Session struct {
 	// NextAfterRest (mode rest): call Next once right after Rest, before the
 	// remainder is read.
 	NextAfterRest bool `json:"next_called_right_after_rest"`
-	reader        *simReader
+	// Resume (mode rest): instead of draining the reader Rest returned, hand it
+	// back to Reset (after reading RestSplit bytes from it, if any) and go on
+	// scanning: the resume-after-raw-payload idiom.
+	Resume bool     `json:"reset_to_rest_reader_and_scan_on"`
+	After  []string `json:"tokens_after_resume,omitempty"`
+	reader *simReader
 	// observations (written by the executing thread, read after the join)
 	Tokens    []string `json:"tokens"`
 	Completes []bool   `json:"complete_after_each"`
@@ -251,7 +256,19 @@ func execSession(sc *shell.Scanner, prev *simReader, s *c16Session) (*shell.Scan
 			head = make([]byte, s.RestSplit)
 			n, _ := io.ReadFull(r, head)
 			head = head[:n]
-			r = sc.Rest()
+			if !s.Resume {
+				r = sc.Rest()
+			}
+		}
+		if s.Resume {
+			s.Rest = string(head)
+			sc.Reset(r)
+			for sc.Next() {
+				s.After = append(s.After, sc.Text())
+			}
+			s.After = append(s.After, "") // sentinel: scanning ended
+			s.usedPlan, s.planLen, s.dataLen, s.reused = rd.used(), len(rd.plan), len(rd.data), rd.reloaded
+			return sc, rd
 		}
 		b, err := io.ReadAll(r)
 		s.Rest = string(head) + string(b)
@@ -322,6 +339,31 @@ func checkSession(s *c16Session, st *Stats) *Violation {
 			return &Violation{"token-mismatch", fmt.Sprintf("%s: tokens before Rest %q, reference %q", desc, s.Tokens, want[:k])}
 		}
 		exhausted := s.K > len(want) // Next had already returned false
+		if s.Resume {
+			// The payload bytes read plus the tokens scanned afterwards must be
+			// what some admissible remainder consists of.
+			ok := false
+			var wantAfter [][]string
+			for _, r := range admissibleRests(effective, ref, k, exhausted) {
+				if len(s.Rest) > len(r) || r[:len(s.Rest)] != s.Rest {
+					continue
+				}
+				var toks []string
+				for _, t := range refTokenize(r[len(s.Rest):]).Tokens {
+					toks = append(toks, t.Text)
+				}
+				toks = append(toks, "")
+				wantAfter = append(wantAfter, toks)
+				if equalStrings(toks, s.After) {
+					ok = true
+				}
+			}
+			if !ok {
+				return &Violation{"rest-mismatch", fmt.Sprintf("%s: after %d tokens, %d payload bytes %q were read from the reader Rest returned, which was then handed back to Reset; scanning on gave %q, the unconsumed input tokenizes as one of %q", desc, k, len(s.Rest), s.Rest, s.After, wantAfter)}
+			}
+			st.Inc("probe:resumed_scanning_from_rest_reader", 1)
+			return nil
+		}
 		if !restMatchesEx(effective, ref, k, exhausted, s.Rest) {
 			return &Violation{"rest-mismatch", fmt.Sprintf("%s: after %d tokens Rest returned %q; the unconsumed input is %q", desc, k, s.Rest, admissibleRests(effective, ref, k, exhausted))}
 		}
@@ -494,6 +536,7 @@ func drawSession(ch chooser.Chooser, withErrors bool, st *Stats) *c16Session {
 	s.Plain = ch.Draw(5, "plain") == 4
 	s.RestSplit = -1
 	s.NextAfterRest = s.Mode == smRest && ch.Draw(2, "nextafterrest") == 1
+	s.Resume = s.Mode == smRest && ch.Draw(4, "resume") == 3
 	if s.Mode == smRest && ch.Draw(3, "resttwice") == 2 {
 		s.RestSplit = ch.Draw(len(s.Input)+1, "restsplit")
 	}
@@ -558,7 +601,7 @@ func runC16(withErrors bool) func(ch chooser.Chooser, st *Stats) *Outcome {
 		}
 		dirtyGets := 0
 		res := runSched(ch, sched.Config{StayWeight: cfg.StayWeight, PoolPolicy: cfg.PoolPolicy, PoolDropPct: cfg.PoolDrop, MaxSteps: 20000}, bodies, &dirtyGets)
-		out := &Outcome{Hash: res.Hash, Steps: res.Steps}
+		out := &Outcome{Hash: res.Hash, Steps: res.Steps, Detached: res.Detached}
 		h := newHasher()
 		h.u64(res.Hash)
 		nontrivial := false
@@ -685,7 +728,7 @@ func init() {
 			"a run is non-trivial if some reader needed more than one Read or a pooled object was re-used; distinct = distinct fingerprints of (event log, tokens, rests)",
 		Real:           real,
 		Simulated:      []string{"the io.Reader handed to scanners", "sync.Pool object choice and retention", "goroutine scheduling at every Read and pool operation"},
-		RequiredProbes: append(c16Pairs(), "fault:short_read", "fault:empty_read", "fault:data_with_eof", "probe:pool_returned_used_object", "probe:rest_after_0_tokens", "probe:rest_after_some_tokens", "probe:rest_after_all_tokens", "probe:incomplete_final_token", "probe:context_switch_between_scanner_reads", "shell_oracle:evaluations", "probe:scanner_abandoned_mid_input", "probe:reader_object_reused", "probe:rest_called_twice", "probe:plain_reader_then_simulated_reader"),
+		RequiredProbes: append(c16Pairs(), "fault:short_read", "fault:empty_read", "fault:data_with_eof", "probe:pool_returned_used_object", "probe:rest_after_0_tokens", "probe:rest_after_some_tokens", "probe:rest_after_all_tokens", "probe:incomplete_final_token", "probe:context_switch_between_scanner_reads", "shell_oracle:evaluations", "probe:scanner_abandoned_mid_input", "probe:reader_object_reused", "probe:rest_called_twice", "probe:plain_reader_then_simulated_reader", "probe:resumed_scanning_from_rest_reader"),
 		Finish:         finishShell(&c16Shell),
 	})
 	register(&Property{
